@@ -322,13 +322,24 @@ def lemma_root_min(heap, n, k):
     props=['C03', 'C04'],
   ),
 
+  # starting a member's open: the only synchronous effect is the Open() call on its channel; the completion callback
+  # (_OnOpenNodeComplete -> _OnNodeDown on failure) runs later as its own entry point
   'HeapBalancerSink._OpenNode': dict(
     cls='HeapBalancerSink', params={'n': 'Node'}, returns='AsyncResult',
-    requires=[], ensures=[], modifies=[], allocates=True, trusted=True,
-    notes='n.channel.Open().ContinueWith(...).Unwrap(): starts the open; assumed to change no balancer state synchronously '
-          '(the completion callback _OnOpenNodeComplete -> _OnNodeDown runs later as its own entry point)',
+    requires=['allocated(n)', 'allocated(n.channel)'],
+    ensures=['result is not None', 'n.channel.g_opens == old(n.channel.g_opens) + 1',
+             'forall_ref(c, Channel, implies(c != n.channel, c.g_opens == old(c.g_opens)), c.g_opens)'],
+    modifies=['Channel.g_opens'], allocates=True,
+    props=['C03', 'C05', 'C06'],
+  ),
+  'HeapBalancerSink._OnOpenNodeComplete': dict(
+    cls='HeapBalancerSink', params={'ar': 'AsyncResult', 'node': 'Node'}, returns='AsyncResult',
+    requires=['HeapInv(self)', 'allocated(ar)', 'allocated(node)'],
+    ensures=['HeapInv(self)', 'implies(old(ar.exception) is None, result == ar)'],
+    modifies=_HOOK_MOD, allocates='any',
     props=['C03'],
   ),
+
 
   # release closure created per dispatch (C04: idempotent release)
   'HeapBalancerSink._AsyncProcessRequestImpl.PutWrapper': dict(
